@@ -202,6 +202,9 @@ def shard(ctx):
             k += 1
             if ctx.mine(k):
                 judge_pubid(ctx, p, fl)
+                # and every concatenation of two of them (a quote next to another character that needs coercion, ...)
+                for p2 in pubids:
+                    judge_pubid(ctx, p + p2, fl)
         for nm in ["xmlns:a", "xmlns", "a:b", "aU0003Ab", "1a", "-a", "a b", "é", "a\x0cb", "{x}y", "xlink:href"]:
             k += 1
             if ctx.mine(k):
